@@ -21,6 +21,7 @@ C01.f restore writes each blob at the offset recorded for it, taken from the rea
 import re
 from rules.common import *
 
+TECHNIQUE = ('static analysis over rustc MIR (rustc_private driver): symbolic byte-length tracking of ranged reads (symlen), provenance of stored metadata fields, interval analysis of chunker arithmetic, call-graph who-may-write rules shared with C14/C08; decides structural necessary conditions, not the round trip')
 LEVEL = "other"
 EXPLANATION = (
     "Writer/reader table agreement (extracted from the match arms in MIR), Option-discriminant pairing of the compress/"
